@@ -337,3 +337,55 @@ func (g *Gen) BootstrapWhale(e *eng.Engine, refresh func()) {
 		}
 	}
 }
+
+// ExponentTail is a short deterministic segment run at the END of a workload (it leaves amounts with
+// 100 000 digits in the state, which would only slow everything else down). The decimal library refuses
+// to add operands whose exponents are more than 100 000 apart; the segment puts an issuance exactly on
+// both sides of that limit for a recipient whose balance has one more decimal place than the batch
+// supply, so that one of the additions of a mint fails while the other would succeed.
+func (g *Gen) ExponentTail(e *eng.Engine, refresh func()) {
+	A := g.A
+	ex := func(tag string, msgs ...sdk.Msg) *eng.TxRec {
+		r := e.Exec(eng.Tx{Msgs: msgs, Tag: "exponent-tail/" + tag})
+		refresh()
+		return r
+	}
+	if len(g.V.ProjectList) == 0 {
+		return
+	}
+	p := g.V.ProjectList[0]
+	c := g.V.Classes[p.ClassKey]
+	if c == nil {
+		return
+	}
+	iss := sortedKeys(g.V.Issuers[c.Key])
+	if len(iss) == 0 {
+		return
+	}
+	issuer, victim := iss[0], A[6]
+	if victim == issuer {
+		victim = A[7]
+	}
+	s, en := time.Date(2023, 1, 1, 0, 0, 0, 0, time.UTC), time.Date(2023, 7, 1, 0, 0, 0, 0, time.UTC)
+	r := ex("batch", &basetypes.MsgCreateBatch{Issuer: issuer, ProjectId: p.Id, Metadata: "exponent tail", StartDate: &s, EndDate: &en, Open: true,
+		Issuance: []*basetypes.BatchIssuance{{Recipient: issuer, TradableAmount: "100"}}})
+	if r == nil || !r.OK {
+		return
+	}
+	d := r.Resps[0].(*basetypes.MsgCreateBatchResponse).BatchDenom
+	ex("send", &basetypes.MsgSend{Sender: issuer, Recipient: victim, Credits: []*basetypes.MsgSend_SendCredits{{BatchDenom: d, TradableAmount: "9.5"}}})
+	mint := func(tag, amt string, retired bool, n int) {
+		is := &basetypes.BatchIssuance{Recipient: victim, TradableAmount: amt}
+		if retired {
+			is = &basetypes.BatchIssuance{Recipient: victim, RetiredAmount: amt, RetirementJurisdiction: "US"}
+		}
+		ex(tag, &basetypes.MsgMintBatchCredits{Issuer: issuer, BatchDenom: d, Issuance: []*basetypes.BatchIssuance{is},
+			OriginTx: &basetypes.OriginTx{Id: fmt.Sprintf("exp-tail-%d", n), Source: "polygon"}})
+	}
+	mint("mint-beyond-limit", "1e100000", false, 1)        // balance 9.5 + 1e100000: exponents 100001 apart
+	mint("mint-beyond-limit-retired", "1e100000", true, 2) // retired column: empty/zero balance, supply 0
+	mint("mint-at-limit", "1e99999", false, 3)             // 100000 apart: representable
+	ex("send-small", &basetypes.MsgSend{Sender: victim, Recipient: issuer, Credits: []*basetypes.MsgSend_SendCredits{{BatchDenom: d, TradableAmount: "0.5"}}})
+	ex("retire-small", &basetypes.MsgRetire{Owner: victim, Credits: []*basetypes.Credits{{BatchDenom: d, Amount: "1"}}, Jurisdiction: "US"})
+	ex("cancel-small", &basetypes.MsgCancel{Owner: victim, Credits: []*basetypes.Credits{{BatchDenom: d, Amount: "1"}}, Reason: "tail"})
+}
